@@ -592,7 +592,7 @@ type OpenAPIGeneratorConfig struct {
 	// The security schema definitions for the API.
 	//
 	// Controllers and routes may specify which of the schemas they adhere to
-	SecuritySchemes []SecuritySchemeConfig `json:"securitySchemes" validate:"dive"`
+	SecuritySchemes []SecuritySchemeConfig `json:"securitySchemes" validate:"unique=SecurityName,dive"`
 	// The default security for routes that do not have any explicit or inherited @Security annotations.
 	//
 	// This setting is used to ensure all API endpoints are secured
